@@ -60,6 +60,8 @@ type vfPeerReq struct {
 	Raw   []byte // frame body
 	Bad   string // non-empty when the frame did not decode as a request
 	Reply []byte // the frame this peer answered with (after mutation), nil if none
+	ReqEnd   int // offset in the client->peer stream just after this request
+	ReplyEnd int // offset in the peer->client stream just after the reply (0 = not written yet)
 }
 
 type vfPeer struct {
@@ -162,6 +164,7 @@ func (p *vfPeer) Serve() {
 	defer close(p.done)
 	defer p.end.Close()
 	idx := 0
+	consumed := 0
 	for {
 		var hdr [4]byte
 		if !p.readFull(hdr[:]) {
@@ -181,8 +184,9 @@ func (p *vfPeer) Serve() {
 			p.mu.Unlock()
 			break
 		}
+		consumed += 4 + int(n)
 		req, _, err := vfDecodeBody(body)
-		rec := vfPeerReq{Pkt: req, Raw: body}
+		rec := vfPeerReq{Pkt: req, Raw: body, ReqEnd: consumed}
 		if err != nil || !(vfIsRequestType(body[0]) || body[0] == vfFxpInit) {
 			rec.Bad = fmt.Sprintf("undecodable request type %d: %v", body[0], err)
 			p.mu.Lock()
@@ -206,9 +210,10 @@ func (p *vfPeer) Serve() {
 		rec.Reply = frame
 		p.mu.Lock()
 		p.reqs = append(p.reqs, rec)
+		slot := len(p.reqs) - 1
 		p.mu.Unlock()
 		if frame != nil {
-			p.emit(idx, frame, req.Type == vfFxpInit)
+			p.emit(slot, frame, req.Type == vfFxpInit)
 		}
 		idx++
 	}
@@ -244,7 +249,7 @@ func (p *vfPeer) readFull(b []byte) bool {
 
 func (p *vfPeer) emit(idx int, frame []byte, now bool) {
 	if p.window <= 1 || now {
-		p.end.Write(frame)
+		p.write(idx, frame)
 		return
 	}
 	p.held = append(p.held, vfHeldReply{idx, frame})
@@ -273,7 +278,18 @@ func (p *vfPeer) releaseOne() {
 	}
 	h := p.held[k]
 	p.held = append(p.held[:k], p.held[k+1:]...)
-	p.end.Write(h.frame)
+	p.write(h.idx, h.frame)
+}
+
+// write sends one reply and records where it ends in the peer->client stream.
+func (p *vfPeer) write(slot int, frame []byte) {
+	p.end.Write(frame)
+	end := p.end.out.TapLen()
+	p.mu.Lock()
+	if slot >= 0 && slot < len(p.reqs) {
+		p.reqs[slot].ReplyEnd = end
+	}
+	p.mu.Unlock()
 }
 
 func (p *vfPeer) Requests() []vfPeerReq {
